@@ -19,7 +19,8 @@ RULE = ("scenarios {same variable, two images of one tree, tree + pickled copy} 
         "start/lock/open/seek/read/close and 2 threads x 2 chunks, enumerated completely by DFS, sharded by schedule prefix; "
         "3 threads x 1 chunk on three different images / one variable / tree+copy with the coarse yield points start/open/seek/read "
         "(34650 orders when uncontended)} plus seeded random schedules of larger loads (2-4 threads on up to 4 images, 1-3 chunks "
-        "each, mixed selections); thorough adds 3 threads x 2 chunks coarse. evaluations = schedules executed; distinct = distinct executed interleavings "
+        "each, mixed selections) and free-running threads (3-5 threads x 25-60 loads) with sleep(0) injected by a sys.monitoring LINE "
+        "callback at statement starts of array.py / xarray.py (non-deterministic, seeds logged); thorough adds 3 threads x 2 chunks coarse. evaluations = schedules executed; distinct = distinct executed interleavings "
         "(trace strings) per scenario; non-trivial = schedule in which at least two threads' file operations interleave or contend")
 ASSUMPTIONS = ["files opened through the tracing filesystem have independent positions (like real files); a shared or cached "
                "handle would be corrupted by a seek/seek/read order",
@@ -50,6 +51,9 @@ def _plan(tier):
     nrand = 48 if tier == "quick" else 600
     for k in range(nrand):
         cases.append(("random", SCENARIOS[k % 3], 2 + k % 3, 1 + k % 3, k))
+    # complementary, non-deterministic: free-running threads with sleep(0) injected at source lines of the read path
+    for k in range(8 if tier == "quick" else 160):
+        cases.append(("free", SCENARIOS[k % 3], 3 + k % 3, 0, k))
     return cases
 
 
@@ -67,6 +71,8 @@ def case_weight(i, tier, seed):
     kind, sc, nt, nchunks, p = _plan(tier)[i]
     if kind == "random":
         return 3
+    if kind == "free":
+        return 40
     return {"different-images": 120, "same-variable": 2, "pickled-copy": 2}[sc] * (10 if nchunks == 2 else 1) * (4 if nt == 3 else 1)
 
 
@@ -138,6 +144,8 @@ def run_case(i, tier, seed):
     lines = 3 * max(4, nchunks * nthreads)
     tree, copy, exp = _setup(seed, lines, rpc)
     sched.COARSE[0] = kind == "dfs-coarse"
+    if kind == "free":
+        return _free_case(i, tier, seed, scenario, nthreads, p, tree, copy, exp, lines, obs)
     if kind in ("dfs", "dfs-coarse"):
         sels = [slice(t * nchunks * rpc, (t + 1) * nchunks * rpc) for t in range(nthreads)]
         jobs, want = _jobs(scenario, tree, copy, exp, sels)
@@ -195,6 +203,112 @@ def run_case(i, tier, seed):
     obs["distinct_interleavings"] += len(traces)
     return {"sig": f"random|{scenario}|{nthreads}x{nchunks}", "evals": obs["schedules"], "violations": violations[:4], "obs": obs,
             "sample": {"scenario": scenario, "threads": nthreads, "kind": "random schedules", "distinct": len(traces)}}
+
+
+_LINE_EVENTS = [0, 0]
+
+
+def _install_line_yields(rng):
+    """sys.monitoring LINE callback on the repository's array.py / xarray.py: yield the GIL at random statement starts"""
+    import sys
+    import time
+
+    mon = sys.monitoring
+    tool = 3
+    try:
+        mon.use_tool_id(tool, "vf-yield")
+    except ValueError:
+        pass  # already ours
+
+    def on_line(code, line):
+        fn = code.co_filename
+        if not (fn.endswith("ceos_alos2/array.py") or fn.endswith("ceos_alos2/xarray.py")):
+            return mon.DISABLE
+        _LINE_EVENTS[0] += 1
+        if rng.random() < 0.35:
+            _LINE_EVENTS[1] += 1
+            time.sleep(0 if rng.random() < 0.8 else 0.0002)
+
+    mon.register_callback(tool, mon.events.LINE, on_line)
+    mon.set_events(tool, mon.events.LINE)
+    return tool
+
+
+def _remove_line_yields(tool):
+    import sys
+
+    mon = sys.monitoring
+    mon.set_events(tool, 0)
+    mon.register_callback(tool, mon.events.LINE, None)
+    mon.free_tool_id(tool)
+
+
+def _free_case(i, tier, seed, scenario, nthreads, k, tree, copy, exp, lines, obs):
+    import threading
+
+    rng = random.Random(f"C19-free-{seed}-{k}")
+    tracefs.HOOK = None
+    sched.CUR[0] = None
+    _LINE_EVENTS[0] = _LINE_EVENTS[1] = 0
+    violations = []
+    loads_per_thread = 25 if tier == "quick" else 60
+    plans = []
+    for t in range(nthreads):
+        plan = []
+        for _ in range(loads_per_thread):
+            a = rng.randrange(0, lines - 1)
+            b = rng.randrange(a + 1, lines + 1)
+            sel = rng.choice([slice(a, b), slice(a, b, 2), sorted(rng.sample(range(lines), rng.randrange(1, 5))), a])
+            if scenario == "different-images":
+                src, g = tree, ("HH", "HV", "VH", "VV")[(t + rng.randrange(2)) % 4]
+            elif scenario == "same-variable":
+                src, g = tree, "HH"
+            else:
+                src, g = (tree, copy)[t % 2], ("HH", "HV")[rng.randrange(2)]
+            plan.append((src, g, sel))
+        plans.append(plan)
+    results = [[] for _ in range(nthreads)]
+    barrier = threading.Barrier(nthreads)
+
+    def work(t):
+        barrier.wait()
+        for src, g, sel in plans[t]:
+            try:
+                results[t].append(np.asarray(src[f"imagery/{g}/data"].isel(rows=sel).values))
+            except BaseException as e:  # noqa: BLE001
+                results[t].append(e)
+
+    tool = _install_line_yields(random.Random(f"yield-{seed}-{k}"))
+    try:
+        ths = [threading.Thread(target=work, args=(t,), daemon=True) for t in range(nthreads)]
+        for th in ths:
+            th.start()
+        hung = False
+        for th in ths:
+            th.join(120)
+            hung = hung or th.is_alive()
+    finally:
+        _remove_line_yields(tool)
+        tracefs.HOOK = sched.fs_hook
+    obs["schedules"] += 1
+    obs["free_running_loads"] = obs.get("free_running_loads", 0) + sum(len(r) for r in results)
+    obs["line_events"] = obs.get("line_events", 0) + _LINE_EVENTS[0]
+    obs["yields_injected"] = obs.get("yields_injected", 0) + _LINE_EVENTS[1]
+    if hung:
+        return {"sig": "free-hung", "evals": 1, "violations": [], "obs": obs,
+                "inconclusive": "free-running threads did not finish within 120 s (wall clock only ever yields inconclusive)"}
+    for t in range(nthreads):
+        for (src, g, sel), r in zip(plans[t], results[t]):
+            obs["threads_compared"] += 1
+            w = np.asarray(exp[g][sel])
+            if isinstance(r, BaseException):
+                violations.append({"what": f"[free-running, {scenario}] load of {g}[{sel}] raised {type(r).__name__}: {str(r)[:120]}", "detail": {"seed": k}})
+            elif r.shape != w.shape or r.tobytes() != np.ascontiguousarray(w).tobytes():
+                violations.append({"what": f"[free-running, {scenario}] load of {g}[{sel}] differs from the sequential load", "detail": {"seed": k}})
+    obs["distinct_interleavings"] += 1
+    return {"sig": f"free|{scenario}|{nthreads}", "evals": 1, "violations": violations[:4], "obs": obs,
+            "sample": {"kind": "free-running stress", "scenario": scenario, "threads": nthreads, "loads": sum(len(r) for r in results),
+                       "line_events": _LINE_EVENTS[0], "yields_injected": _LINE_EVENTS[1]}}
 
 
 def finish(results, tier, seed):
